@@ -50,6 +50,9 @@ def gen_graph(rnd):
         if nm == 'root' and not deps: deps = [cands[0]]
         if deps: r['depends'] = [({'name': d, 'use': ['result', 'deps']} if rnd.random() < .25 else d) for d in deps]
         r['packageVars'] = ['LEVEL']; r['environment'] = {'LEVEL': str(i)}
+        # provided dependencies: whoever names this recipe with `use: [deps]` gets them as INDIRECT dependencies
+        plain = [d if isinstance(d, str) else d['name'] for d in r.get('depends', [])]
+        if nm != 'root' and plain and rnd.random() < .5: r['provideDeps'] = rnd.sample(plain, rnd.randint(1, len(plain)))
     return {'recipes': recipes, 'config': {}}
 
 def gen_pred(rnd, names, depth=0):
